@@ -56,6 +56,18 @@ def run(tier):
         ops = [{"op": "write", "rec": t, "j": 0} for t in recs] + [{"op": "close", "rec": "", "j": 0}]
         base = {"ops": ops, "comp": comp, "wbuf": 4096, "rbuf": rng.choice([16, 4096]), "directio": False, "readprog": [], "seekall": False, "seeks": []}
         batches.append(("zerolead-%d" % comp, recs, [dict(base, damage="header", dmgstep=2), dict(base, damage="trunc", dmgstep=7)]))
+    # files of the older format versions 1-3 (laid out by the harness), cut at every length: the completely contained records, then EOF or an error
+    for ver in (1, 2, 3):
+        recs = riorun.payload_family(["tiny", "mixed", "compressible"][ver - 1], rng)
+        toks = [t for t in recs if len(recs[t]) <= 400]
+        cases = []
+        for pi, p in enumerate(progs[ver::(3 if thorough else 4)]):
+            ops = riorun.concretize_ops(p, toks, rng)
+            if ver < 3:
+                ops = [dict(op, rec=(rng.choice(toks) if op["rec"] in ("NIL", "EMPTY") else op["rec"])) for op in ops]
+            cases.append({"ops": ops, "comp": pi % 4, "wbuf": 0, "rbuf": rng.choice([16, 4096]), "directio": False, "readprog": [], "seekall": False, "seeks": [],
+                          "legacy": ver, "damage": "trunc", "dmgstep": 1})
+        batches.append(("legacy-v%d" % ver, recs, cases))
     total = riorun.run_batches(o, binary, batches, "C12", sigprefix="riodamage")
     ndmg = 0
     for r in o.extra.get("tlc_runs", []):
